@@ -2,7 +2,8 @@
    run by the SAME Scan loop as the DFA of the tables (LexDriver.scan_loop is generic in the automaton).
    State = the vector of (token id, residual regular expression) in priority order.
    Type of a state = the first token whose residual is nullable, INVALID if none (earlier definitions win ties);
-   the automaton is dead when every residual denotes the empty language. No proofs in this file. *)
+   the automaton is dead when every residual denotes the empty language. `.` is gocc's: any rune that no explicit
+   character of the current state matches. No proofs in this file. *)
 From Coq Require Import List NArith ZArith Bool.
 From GMK Require Import TableTypes Utf8 gen.Tables gen.GrammarGen LexDriver.
 Import ListNotations.
@@ -33,15 +34,28 @@ Definition mk_alt (a b : re) : re :=
   | _, _ => RAlt a b
   end.
 
-Fixpoint deriv (c : N) (r : re) : re :=
+(* some character (range) at the front of r matches c *)
+Fixpoint explicit (c : N) (r : re) : bool :=
+  match r with
+  | RChr lo hi => N.leb lo c && N.leb c hi
+  | RCat a b => explicit c a || (nullable a && explicit c b)
+  | RAlt a b => explicit c a || explicit c b
+  | RStar a => explicit c a
+  | _ => false
+  end.
+
+(* Brzozowski derivative. `.` follows gocc: in a lexer state it matches exactly the runes that no explicit
+   character (range) of the state matches (ex = "c is explicit in the current state"); e.g. inside a string_lit
+   a raw double quote always closes the string and a backslash always starts an escape. *)
+Fixpoint deriv (c : N) (ex : bool) (r : re) : re :=
   match r with
   | REmp => REmp
   | REps => REmp
   | RChr lo hi => if (N.leb lo c && N.leb c hi)%bool then REps else REmp
-  | RAny => REps
-  | RCat a b => if nullable a then mk_alt (mk_cat (deriv c a) b) (deriv c b) else mk_cat (deriv c a) b
-  | RAlt a b => mk_alt (deriv c a) (deriv c b)
-  | RStar a => mk_cat (deriv c a) (RStar a)
+  | RAny => if ex then REmp else REps
+  | RCat a b => if nullable a then mk_alt (mk_cat (deriv c ex a) b) (deriv c ex b) else mk_cat (deriv c ex a) b
+  | RAlt a b => mk_alt (deriv c ex a) (deriv c ex b)
+  | RStar a => mk_cat (deriv c ex a) (RStar a)
   end.
 
 (* the language is empty *)
@@ -59,7 +73,8 @@ Fixpoint is_void (r : re) : bool :=
 Definition re_state := list (nat * re).
 
 Definition re_step (st : re_state) (c : N) : option (option re_state) :=
-  let st' := map (fun '(t, r) => (t, deriv c r)) st in
+  let ex := existsb (fun '(_, r) => explicit c r) st in
+  let st' := map (fun '(t, r) => (t, deriv c ex r)) st in
   if forallb (fun '(_, r) => is_void r) st' then Some None else Some (Some st').
 
 Fixpoint re_type (st : re_state) : nat :=
